@@ -1883,7 +1883,10 @@ class CreateFromBlueprint(_CreateBase):
                 # (code_ofst == (extcodesize target) would be empty
                 # initcode, which we disallow for hygiene reasons -
                 # same as `create_copy_of` on an empty target).
-                check_codesize = ["assert", ["sgt", codesize, 0]]
+                # (compare unsigned: `code_ofst` is a uint256, and the
+                # difference wraps to a small positive number when it is
+                # larger than (extcodesize target) + 2**255)
+                check_codesize = ["assert", ["gt", ["extcodesize", target], code_offset]]
                 ir.append(
                     IRnode.from_list(
                         check_codesize, error_msg="empty target (create_from_blueprint)"
